@@ -13,6 +13,8 @@ CONSTANTS
   MaxCrash = 1
   MaxRepeat = 0
   DetOrder = TRUE
+  Mults <- M1_12
+  SortedDel = "scan"
   MetKeyWraps = TRUE
   SkipTooBig = TRUE
   PqIdsLoaded = FALSE
